@@ -20,7 +20,7 @@ from coqterm import cbool
 
 IMPORTS = "From XV Require Import Base.Str Model.Bind Model.Parser Model.ParserCorr Spec.Inject."
 
-EXTRAS_C10 = ["poly", "wrappers", "textattr", "wildtail", "scalarwild", "fixed", "required", "anytype", "union"]
+EXTRAS_C10 = ["wildknown", "poly", "wrappers", "textattr", "wildtail", "scalarwild", "fixed", "required", "anytype", "union"]
 
 
 # ------------------------------------------------------------------ Coq evaluation returning one code per case
@@ -97,17 +97,39 @@ def make_jobs(ck, mode, extras, n_gen, budget, slices=("F1", "F2", "F3")):
 
 
 def run_jobs(jobs, chunk=8, timeout=1500):
-    """run the implementation driver; several processes side by side"""
+    """run the implementation driver; several processes side by side.  A driver process that dies (or does not
+    answer) is reported per job as `crashed` -- the check turns it into a failure line, never into a traceback."""
     import concurrent.futures as cf
     chunks = [jobs[i::chunk] for i in range(chunk)]
     chunks = [c for c in chunks if c]
+
+    def one(c):
+        try:
+            return run_impl("impl_parser.py", {"jobs": c}, timeout=timeout)
+        except Exception as e:  # noqa
+            return {"dt_table": None, "jobs": [{"id": j["id"], "seed": j["seed"], "model": j["model"], "cases": [],
+                                                "crashed": f"driver process failed: {e!r}"[:3000]} for j in c]}
+
     with cf.ThreadPoolExecutor(max_workers=len(chunks) or 1) as ex:
-        outs = list(ex.map(lambda c: run_impl("impl_parser.py", {"jobs": c}, timeout=timeout), chunks))
-    res = {"dt_table": outs[0]["dt_table"] if outs else "[]", "jobs": []}
+        outs = list(ex.map(one, chunks))
+    tables = [o["dt_table"] for o in outs if o.get("dt_table")]
+    res = {"dt_table": tables[0] if tables else "(@nil (qname * option (ptype * option str * option ptype)))", "jobs": []}
     for o in outs:
         res["jobs"] += o["jobs"]
     res["jobs"].sort(key=lambda j: j["id"])
     return res
+
+
+def guarded(ck, what, fn):
+    """run one classification section; an unexpected shape of the implementation's answer becomes a failure line"""
+    import traceback
+    try:
+        return fn()
+    except BuildError:
+        raise
+    except Exception:  # noqa
+        ck.failure("harness-internal-error", f"{what}: {traceback.format_exc()[-1500:]}", {"section": what})
+        return None
 
 
 def job_replay_info(j):
@@ -122,6 +144,9 @@ def harness_problems(ck, res):
                        {"job": {"seed": j["seed"], "model": j["model"]}, "trace": j["crashed"]})
         if j.get("skipped"):
             n += 1
+            ck.failure("baseline-parse-of-rendered-document-fails",
+                       f"the real parser does not parse the document the real serializer rendered for {j['model']} seed {j['seed']}: {j['skipped'][:300]}",
+                       {"job": {"seed": j["seed"], "model": j["model"]}, "source": j.get("source"), "xml": j.get("xml")})
     return n
 
 
@@ -132,6 +157,7 @@ def run(ck: Check):
     q = ck.quick
     budget = {"injections": 5 if q else 10, "cfgs_per_injection": 3 if q else 8, "conversions": 2 if q else 5,
               "doc_injections": 2 if q else 5, "cfgs_per_doc": 2 if q else 4, "json_injections": 3 if q else 8,
+              "json_conversions": 6 if q else 20,
               "mutations": 6, "cfgs_per_mutation": 2}
     jobs = make_jobs(ck, "c10", EXTRAS_C10, ck.n(16, 260), budget)
     if getattr(ck, "replay_file", None):
@@ -260,7 +286,31 @@ def run(ck: Check):
         d, rp = jsmeta[i]
         ck.failure("json-strict-unknown-key-" + d["inj"]["exc"], f"unknown key {d['key']} at {d['path']} under the strict default raises {d['inj']['exc']}", rp)
 
-    n_eval = len(inj_terms) + len(corr_terms) + len(pairs) + len(jpairs) + len(jstrict)
+    # dictionary / JSON decoder: conversion matrix (mistyped scalars, incl. bool where int is declared)
+    jc_terms, jc_meta = [], []
+    for j in res["jobs"]:
+        for d in j.get("json_conversions", []):
+            rp = {"job": job_replay_info(j), "json": d["doc"], "path": d["path"], "value": d["value"], "types": d["types"]}
+            a, b = d["nofail"], d["fail"]
+            if "timeout" in (a["kind"], b["kind"]):
+                ck.failure("timeout", "JsonParser did not return within 5 s", rp)
+                continue
+            bad_exc = [x for x in (a, b) if x["kind"] == "err" and x["obs"] is None]
+            if bad_exc:
+                ck.failure("json-conversion-" + bad_exc[0]["exc"], f"value {d['value']} at {d['path']} (declared {d['types']}): "
+                                                                 f"{bad_exc[0]['exc']} {bad_exc[0]['msg']}", rp)
+                continue
+            if a.get("unsupported") or b.get("unsupported") or a["obs"] is None or b["obs"] is None:
+                continue
+            jc_terms.append(f"({cbool(d['unconvertible'])}, {a['obs']}, {b['obs']})")
+            jc_meta.append((d, rp))
+    for i in common.coq_bad_indices("c10_jsonc", IMPORTS, defs, "bool * outcome * outcome", "oracle_json_conversion", jc_terms, shard=300):
+        d, rp = jc_meta[i]
+        ck.failure("json-conversion-matrix", f"JSON value {d['value']} at {d['path']} (declared {d['types']}, the converter says "
+                                             f"{'unconvertible' if d['unconvertible'] else 'convertible'}): without failing {d['nofail']['kind']} "
+                                             f"warnings={d['nofail']['warnings']}, with fail_on_converter_warnings {d['fail']['kind']} {d['fail']['exc']}", rp)
+
+    n_eval = len(inj_terms) + len(corr_terms) + len(pairs) + len(jpairs) + len(jstrict) + len(jc_terms)
     ck.cov["evaluations"] = n_eval
     ck.cov["distinct_nontrivial"] = len(distinct)
     ck.cov["rule"] = ("distinct (model, injection set, option triple, level) whose injection satisfies, in Coq, the hypotheses of "
@@ -273,7 +323,8 @@ def run(ck: Check):
     ck.cov["input_distribution"] = {"jobs": len(jobs), "jobs_skipped": skipped, "cases_by_kind": tags, "unsupported_cases": unsupported,
                                     "injection_cases": len(inj_terms), "guard_true": guard_n, "strict_position": strict_n,
                                     "conversion_pairs": len(pairs), "conversion_pairs_with_warning": warned,
-                                    "json_transparent": len(jpairs), "json_strict": len(jstrict)}
+                                    "json_transparent": len(jpairs), "json_strict": len(jstrict), "json_conversion": len(jc_terms),
+                                    "json_conversion_unconvertible": sum(1 for d, _ in jc_meta if d["unconvertible"])}
     ck.cov["samples"] = [{"model": j["model"], "seed": j["seed"], "what": c["replay"].get("what"), "cfg": c["cfg"], "tag": c["tag"],
                           "observed": c["obs"][:160]} for (j, c) in (inj_meta[:4] + corr_meta[:3])]
     return ck.finish(obligations=obligations, discharged=discharged,
